@@ -1062,6 +1062,8 @@ class TorConfig:
                 if v == DEFAULT_VALUE or v == 'auto':
                     try:
                         initial = defaults[name[:-5]]
+                        if not isinstance(initial, list):
+                            initial = [initial]  # just one default line
                     except KeyError:
                         default_key = '__{}'.format(name[:-5])
                         default = yield self.protocol.get_conf_single(default_key)
@@ -1101,6 +1103,8 @@ class TorConfig:
                 parsed = self.parsers[rn].parse(v)
                 if parsed == [DEFAULT_VALUE]:
                     parsed = defaults.get(rn, [])
+                    if not isinstance(parsed, list):
+                        parsed = [parsed]  # just one default line
                 self.config[rn] = _ListWrapper(
                     parsed, functools.partial(self.mark_unsaved, rn))
 
